@@ -6,7 +6,7 @@ counts of users and proxies
 package main
 
 import (
-	"sync/atomic"
+	"sync"
 
 	"github.com/prometheus/client_golang/prometheus"
 	dto "github.com/prometheus/client_model/go"
@@ -22,6 +22,7 @@ type RoundedCounter interface {
 }
 
 type roundedCounter struct {
+	lock  sync.Mutex
 	total uint64 //reflects the true count
 	value uint64 //reflects the rounded count
 
@@ -31,9 +32,11 @@ type roundedCounter struct {
 
 // Implements the RoundedCounter interface
 func (c *roundedCounter) Inc() {
-	atomic.AddUint64(&c.total, 1)
+	c.lock.Lock()
+	defer c.lock.Unlock()
+	c.total++
 	if c.total > c.value {
-		atomic.AddUint64(&c.value, 8)
+		c.value += 8
 	}
 }
 
@@ -46,7 +49,10 @@ func (c *roundedCounter) Desc() *prometheus.Desc {
 func (c *roundedCounter) Write(m *dto.Metric) error {
 	m.Label = c.labelPairs
 
-	m.Counter = &dto.Counter{Value: proto.Float64(float64(c.value))}
+	c.lock.Lock()
+	value := c.value
+	c.lock.Unlock()
+	m.Counter = &dto.Counter{Value: proto.Float64(float64(value))}
 	return nil
 }
 
